@@ -58,6 +58,15 @@ theorem ack_history_closes_at_most_registered (acks : List Nat) (batches : List 
 /-- Non-vacuity: id 7 acknowledged three times across two payloads is closed once; 9 never registered. -/
 example : ackSeq [7, 8] [[7, 7, 9], [7, 8]] = [.ack 7, .ack 8] := by decide
 
+/-- …and at the level of the bytes the handler receives: over any history of msgs_ack payloads —
+arbitrary byte strings, malformed and truncated ones included — handled by `handleAck` (the function
+the correspondence run compares with `Conn.handleAck`), the closes of one id never exceed its
+registrations, and every single payload conserves waiters. -/
+theorem ack_payload_history_closes_at_most_registered (st : St) (payloads : List Bytes) (id : Nat) :
+    (ackRun st payloads).count (Ev.ack id) ≤ st.acks.count id ∧
+    ∀ b, (handleAck st b).st.acks.count id + (handleAck st b).evs.count (Ev.ack id) = st.acks.count id :=
+  ⟨ackRun_count id payloads st, fun b => handleAck_conserve id st b⟩
+
 /-- Handling a payload never changes which requests are pending. -/
 theorem pending_unchanged (fuel : Nat) (st : St) (b : Bytes) :
     (handle fuel st b).st.pending = st.pending :=
